@@ -259,7 +259,6 @@ def consistency_reach(repo: Repo) -> RuleRun:
             ("neighbour block agrees, its wire running the other way", mk([5, 5, 5, 5], (2, 5, True), anti=True), False),
             ("three more blocks at edge 1, one of them agrees and two demand another count", mk([5, 5, 5, 5], more=((1, 5), (1, 7), (1, 7))), True),
             ("two more blocks at edge 2, both agree", mk([5, 5, 5, 5], more=((2, 5), (2, 5))), False),
-            ("a collapsed wire carries another count than the three real edges", mk([7, 5, 5, 5], collapsed=(0,)), True),
             ("wire 0 collapsed, a neighbour demands another count on wire 2", mk([5, 5, 5, 5], (2, 7, True), collapsed=(0,)), True),
             ("wire 1 collapsed, a neighbour demands another count on wire 3", mk([5, 5, 5, 5], (3, 7, True), collapsed=(1,)), True),
         ]
@@ -738,6 +737,11 @@ def coincidence_symmetry(repo: Repo) -> RuleRun:
         ("shares one vertex, crosswise", (a, b), (b, c), False),
         ("other vertex objects at the same two places (the duplicated side of a merged interface)", (a, b), (a2, b2), False),
         ("one shared vertex, the other a duplicate at the same place", (a, b), (a, b2), False),
+        # a collapsed wire - both ends at one vertex: the apex of a wedge standing on its axis - is a point, not an edge; it has no
+        # cells and blockMesh ties nothing to it, so it is 'the same edge' as nothing (two sectors on one axis keep their own counts)
+        ("two collapsed wires of different blocks at one vertex", (a, a), (a, a), False),
+        ("a collapsed wire and an edge starting at its vertex", (a, a), (a, b), False),
+        ("an edge and a collapsed wire at its far end", (a, b), (b, b), False),
     ]
     for label, v, w, expect in cases:
         got = run(coin, _wire(repo, "w1", *v), _wire(repo, "w2", *w))
